@@ -1104,8 +1104,10 @@ def run_case(case, ctx):
             elif op == "remove_solvent":
                 inplace = bool(rng.random() < 0.3)
                 keep = [a.index for a in t.topology.atoms if a.residue.name not in ("HOH", "NA", "CL")]  # NA / CL only occur in the wide topologies
-                if len(keep) < 4 or len(keep) == na:
+                if len(keep) < 4:
                     continue
+                if len(keep) == na:
+                    ctx.observe("remove_solvent", "system without solvent")  # nothing to remove: still a new object unless inplace
                 out = t.remove_solvent(inplace=inplace)
                 label = f"remove_solvent(inplace={inplace})"
                 m2 = dict(xyz=m["xyz"][:, keep], time=m["time"], L=m["L"], A=m["A"], ids=[m["ids"][i] for i in keep])
@@ -1158,6 +1160,11 @@ def run_case(case, ctx):
             hist["since_center"].append(label)
         ctx.observe("op", label)
         if not check_fields(ctx, out, m2, label, exact=exact):
+            return
+        if src is not None and out is src:
+            # an operation that is documented to build a NEW trajectory handed the source object back: whatever the caller
+            # does to "the result" in place now happens to the trajectory it meant to keep
+            ctx.violation("memory.identity", f"{label}:returns-the-source-object-itself", f"{label}: the result IS the input object (not a new trajectory)")
             return
         if src is not None and out is not src:
             if op == "slice_nocopy" or not memcheck:
